@@ -21,24 +21,50 @@ theorem countP_modify_fid (objs : List Obj) (i : Nat) (f : Obj → Obj) (x : Nat
     | zero => simp [List.modify_cons, List.countP_cons, hf]
     | succ n => simp [List.countP_cons, ih n]
 
-/-- A message is queued. -/
-theorem Sim.enq {l : List WsIn} (e : EP) (m : Msg) (h1 : isConn x m = false)
-    (h2 : isAck x m = true ∨ isPush x m = true → 0 < e.objs.countP (fun o => o.fid == x)) :
+theorem countP_modify_nw (objs : List Obj) (i : Nat) (f : Obj → Obj) (x : Nat) (hf : ∀ o, (f o).fid = o.fid)
+    (hs : ∀ o, (f o).finishSent = false → o.finishSent = false) :
+    (objs.modify i f).countP (fun o => o.fid == x && !o.finishSent) ≤ objs.countP (fun o => o.fid == x && !o.finishSent) := by
+  induction objs generalizing i with
+  | nil => simp
+  | cons o r ih =>
+    cases i with
+    | zero =>
+      have e1 : (o :: r).modify 0 f = f o :: r := by simp
+      rw [e1, List.countP_cons, List.countP_cons]
+      have : (((f o).fid == x && !(f o).finishSent) = true) → ((o.fid == x && !o.finishSent) = true) := by
+        intro h
+        simp only [Bool.and_eq_true, Bool.not_eq_true', hf] at h ⊢
+        exact ⟨h.1, hs o h.2⟩
+      by_cases h1 : ((f o).fid == x && !(f o).finishSent) = true
+      · rw [if_pos h1, if_pos (this h1)]; omega
+      · rw [if_neg h1]; split <;> omega
+    | succ n =>
+      have e1 : (o :: r).modify (n+1) f = o :: r.modify n f := by simp
+      rw [e1, List.countP_cons, List.countP_cons]
+      have := ih n
+      omega
+
+/-- A message is queued that is neither `Connect x`, `Push x`, `Finish x` nor `Bind x`. -/
+theorem Sim.enq {l : List WsIn} (e : EP) (m : Msg) (h1 : isConn x m = false) (h3 : isPush x m = false)
+    (h4 : isFin x m = false) (h5 : isBind x m = false)
+    (h2 : isAck x m = true → 0 < e.objs.countP (fun o => o.fid == x)) :
     Sim x j l e l (e.enq m) [] [] := by
   unfold EP.enq
   split
   · exact Sim.refl l e
   · rename_i hc
-    exact Sim.one (AStep.enq (view x j e l) m (by simpa [view] using hc) h1 h2) rfl rfl rfl
+    exact Sim.one (AStep.enq (view x j e l) m (by simpa [view] using hc) h1 h3 h4 h5 h2) rfl rfl rfl
 
-/-- A frame that is neither `Connect x`, `Acknowledge x` nor `Push x` is queued. -/
+/-- A frame that is neither `Connect x`, `Acknowledge x`, `Push x`, `Finish x` nor `Bind x` is queued. -/
 theorem Sim.enqOther {l : List WsIn} (e : EP) (m : Msg) (h1 : isConn x m = false) (h2 : isAck x m = false)
-    (h3 : isPush x m = false) : Sim x j l e l (e.enq m) [] [] :=
-  Sim.enq e m h1 (by intro h; rcases h with h | h <;> simp_all)
+    (h3 : isPush x m = false) (h4 : isFin x m = false := by rfl) (h5 : isBind x m = false := by rfl) :
+    Sim x j l e l (e.enq m) [] [] :=
+  Sim.enq e m h1 h3 h4 h5 (by intro h; rw [h2] at h; cases h)
 
 theorem Sim.enqFrame {l : List WsIn} (e : EP) (f : Frame) (h1 : isConn x (.frame f) = false)
-    (h2 : isAck x (.frame f) = false) (h3 : isPush x (.frame f) = false) : Sim x j l e l (e.enqFrame f) [] [] :=
-  Sim.enqOther e _ h1 h2 h3
+    (h2 : isAck x (.frame f) = false) (h3 : isPush x (.frame f) = false) (h4 : isFin x (.frame f) = false := by rfl)
+    (h5 : isBind x (.frame f) = false := by rfl) : Sim x j l e l (e.enqFrame f) [] [] :=
+  Sim.enqOther e _ h1 h2 h3 h4 h5
 
 theorem canAcc_modObj (e : EP) (i : Nat) (f : Obj → Obj)
     (hm : ∀ o, ((f o).senderAlive && (f o).rxOpen) = true → (o.senderAlive && o.rxOpen) = true) :
@@ -63,22 +89,93 @@ theorem canAcc_modObj (e : EP) (i : Nat) (f : Obj → Obj)
           exact ⟨h.1, by simpa using hm o (by simpa using h.2)⟩
       · simp [hij]
 
-/-- An object update that keeps the id and does not re-open a direction. -/
-theorem Sim.modObj {l : List WsIn} (e : EP) (i : Nat) (f : Obj → Obj) (hf : ∀ o, (f o).fid = o.fid)
-    (hm : ∀ o, ((f o).senderAlive && (f o).rxOpen) = true → (o.senderAlive && o.rxOpen) = true) :
-    Sim x j l e l (e.modObj i f) [] [] := by
-  refine Sim.one (AStep.degrade (view x j e l) (lookup e.flows x) (canAcc x j (e.modObj i f)) (Or.inl rfl)
-    (fun h => ⟨canAcc_modObj e i f hm h, rfl⟩)) ?_ rfl rfl
-  simp [view, EP.modObj, setObj, countP_modify_fid _ _ _ _ hf]
+theorem rxOpenJ_modify (objs : List Obj) (i : Nat) (f : Obj → Obj) (hr : ∀ o, (f o).rxOpen = true → o.rxOpen = true) :
+    rxOpenJ j (objs.modify i f) = true → rxOpenJ j objs = true := by
+  unfold rxOpenJ
+  simp only [List.getElem?_modify]
+  by_cases hij : i = j
+  · subst hij
+    cases objs[i]? with
+    | none => simp
+    | some o => simpa using hr o
+  · simp [hij]
 
-/-- Side condition of `Sim.modObj` for an update that touches neither `fid`, `senderAlive` nor `rxOpen`, or
-    only closes a direction. -/
+/-- `canJ` survives an object update that keeps object `j`'s `Sender` as long as its `Receiver` stays open. -/
+theorem canAcc_modObj_keep (e : EP) (i : Nat) (f : Obj → Obj)
+    (hk : canAcc x j e = true → i = j → ∀ o, e.objs[j]? = some o → (f o).rxOpen = true → (f o).senderAlive = true) :
+    canAcc x j e = true → rxOpenJ j (e.modObj i f).objs = true → canAcc x j (e.modObj i f) = true := by
+  intro hc hr
+  have hk' := hk hc
+  unfold canAcc canAccF rxOpenJ at *
+  simp only [EP.modObj, setObj, List.getElem?_modify] at hr ⊢
+  cases hl : lookup e.flows x with
+  | none => rw [hl] at hc; simp at hc
+  | some s =>
+    rw [hl] at hc
+    cases s with
+    | requested r => simp at hc
+    | bindRequested r => simp at hc
+    | established k =>
+      simp only at hc ⊢
+      by_cases hij : i = j
+      · subst hij
+        cases ho : e.objs[i]? with
+        | none => rw [ho] at hc; simp at hc
+        | some o =>
+          rw [ho] at hc hr
+          simp only [if_true, Bool.and_eq_true, beq_iff_eq] at hc hr ⊢
+          simp only [Option.map_eq_map, Option.map_some] at hr ⊢
+          simp only [Bool.and_eq_true]
+          exact ⟨hc.1, hk' rfl o ho hr, hr⟩
+      · simpa [hij] using hc
+
+/-- An object update that keeps the id, re-opens nothing, and takes object `j`'s `Sender` away only together
+    with its `Receiver` (or while `j` is not accepting). -/
+theorem Sim.modObjG {l : List WsIn} (e : EP) (i : Nat) (f : Obj → Obj) (hf : ∀ o, (f o).fid = o.fid)
+    (hm : ∀ o, ((f o).senderAlive = true → o.senderAlive = true) ∧ ((f o).rxOpen = true → o.rxOpen = true) ∧
+      ((f o).finishSent = false → o.finishSent = false))
+    (hk : canAcc x j e = true → i = j → ∀ o, e.objs[j]? = some o → (f o).rxOpen = true → (f o).senderAlive = true) :
+    Sim x j l e l (e.modObj i f) [] [] := by
+  have hm' : ∀ o, ((f o).senderAlive && (f o).rxOpen) = true → (o.senderAlive && o.rxOpen) = true := by
+    intro o h
+    simp only [Bool.and_eq_true] at h ⊢
+    exact ⟨(hm o).1 h.1, (hm o).2.1 h.2⟩
+  refine Sim.one (AStep.degrade (view x j e l) (lookup e.flows x) (canAcc x j (e.modObj i f))
+    ((e.modObj i f).objs.countP (fun o => o.fid == x && !o.finishSent)) (bindHeld x e) (rxOpenJ j (e.modObj i f).objs)
+    (Or.inl rfl) (fun h => ⟨canAcc_modObj e i f hm' h, rfl⟩)
+    (fun hc _ hr => canAcc_modObj_keep e i f hk hc hr)
+    (countP_modify_nw _ _ _ _ hf (fun o => (hm o).2.2)) (fun h => h)
+    (rxOpenJ_modify _ _ _ (fun o => (hm o).2.1))) ?_ rfl rfl
+  simp [view, EP.modObj, setObj, countP_modify_fid _ _ _ _ hf, bindHeld]
+
+/-- An object update that keeps the id and the `Sender`, and re-opens nothing. -/
+theorem Sim.modObj {l : List WsIn} (e : EP) (i : Nat) (f : Obj → Obj) (hf : ∀ o, (f o).fid = o.fid)
+    (hm : ∀ o, (f o).senderAlive = o.senderAlive ∧ ((f o).rxOpen = true → o.rxOpen = true) ∧
+      ((f o).finishSent = false → o.finishSent = false)) :
+    Sim x j l e l (e.modObj i f) [] [] := by
+  refine Sim.modObjG e i f hf (fun o => ⟨fun h => (hm o).1 ▸ h, (hm o).2⟩) ?_
+  intro hc hij o ho _
+  subst hij
+  rw [(hm o).1]
+  unfold canAcc canAccF at hc
+  cases hl : lookup e.flows x with
+  | none => rw [hl] at hc; simp at hc
+  | some s =>
+    rw [hl] at hc
+    cases s with
+    | requested r => simp at hc
+    | bindRequested r => simp at hc
+    | established k =>
+      simp only [ho, Bool.and_eq_true] at hc
+      exact hc.2.1
+
+/-- Side conditions of `Sim.modObj` for the usual updates. -/
 macro "sim_side" : tactic =>
   `(tactic| first
     | (intro o; rfl)
     | (intro o; simp only [Obj.disallowWrite, Obj.wake]; split <;> rfl)
-    | (intro o h; exact h)
-    | (intro o h; simp only [Obj.disallowWrite, Obj.wake] at h ⊢; split at h <;> simp_all)
+    | (intro o; exact ⟨rfl, fun h => h, fun h => h⟩)
+    | (intro o; refine ⟨?_, ?_, ?_⟩ <;> simp only [Obj.disallowWrite, Obj.wake] <;> (try split) <;> simp_all)
     | (intro o h; simp_all))
 
 theorem canAcc_flows_eq (e : EP) (fl : List (Nat × Slot)) (h : lookup fl x = lookup e.flows x) :
@@ -88,11 +185,15 @@ theorem canAcc_flows_eq (e : EP) (fl : List (Nat × Slot)) (h : lookup fl x = lo
 /-- The flow table changes; the slot of `x` stays or is released. -/
 theorem Sim.flows {l : List WsIn} (e : EP) (fl : List (Nat × Slot))
     (h : lookup fl x = lookup e.flows x ∨ lookup fl x = none) : Sim x j l e l { e with flows := fl } [] [] := by
-  refine Sim.one (AStep.degrade (view x j e l) (lookup fl x) (canAcc x j { e with flows := fl }) h ?_) rfl rfl rfl
-  intro hc
-  rcases h with h | h
-  · exact ⟨by rw [canAcc_flows_eq e fl h] at hc; exact hc, h⟩
-  · simp [canAcc, canAccF, h] at hc
+  refine Sim.one (AStep.degrade (view x j e l) (lookup fl x) (canAcc x j { e with flows := fl })
+    (e.objs.countP (fun o => o.fid == x && !o.finishSent)) (bindHeld x e) (rxOpenJ j e.objs) h ?_ ?_
+    (Nat.le_refl _) (fun h => h) (fun h => h)) rfl rfl rfl
+  · intro hc
+    rcases h with h | h
+    · exact ⟨by rw [canAcc_flows_eq e fl h] at hc; exact hc, h⟩
+    · simp [canAcc, canAccF, h] at hc
+  · intro hc hs _
+    rw [canAcc_flows_eq e fl hs]; exact hc
 
 theorem Sim.erase {l : List WsIn} (e : EP) (fid : Nat) : Sim x j l e l { e with flows := Mux.erase e.flows fid } [] [] := by
   refine Sim.flows e _ ?_
